@@ -639,17 +639,22 @@ func (t *Collection) VisitItemsAscendEx(target []byte, withValue bool,
 	rnl := t.rootAddRef()
 	defer t.rootDecRef(rnl)
 
-	var prevVisitItem *Item
+	// The previous key is kept as a copy: the visit gives up its reference
+	// to an item when it leaves the node, after which an app that manages
+	// Item buffers (ItemDecRef) may reuse the key's bytes.
+	var prevVisitKey []byte
+	havePrevVisitKey := false
 	var errCheckedVisitor error
 
 	checkedVisitor := func(i *Item, depth uint64) bool {
-		if prevVisitItem != nil && t.compare(prevVisitItem.Key, i.Key) > 0 {
+		if havePrevVisitKey && t.compare(prevVisitKey, i.Key) > 0 {
 			errCheckedVisitor = fmt.Errorf("corrupted / out-of-order index"+
 				", key: %s vs %s, coll: %p, collName: %s, store: %p, storeFile: %v",
-				string(prevVisitItem.Key), string(i.Key), t, t.name, t.store, t.store.file)
+				string(prevVisitKey), string(i.Key), t, t.name, t.store, t.store.file)
 			return false
 		}
-		prevVisitItem = i
+		prevVisitKey = append(prevVisitKey[:0], i.Key...)
+		havePrevVisitKey = true
 		return visitor(i, depth)
 	}
 
